@@ -1,6 +1,8 @@
 package proxy
 
 import (
+	"go.temporal.io/server/api/adminservice/v1"
+	replicationv1 "go.temporal.io/server/api/replication/v1"
 	"go.temporal.io/server/client/history"
 	"go.temporal.io/server/common/channel"
 )
@@ -16,6 +18,30 @@ var c08Perms = map[int][][]int{
 }
 
 func c08Impl(e *rtEnv) *shardManagerImpl { return e.sm.(*shardManagerImpl) }
+
+// every order of n events
+func c08AllPerms(n int) [][]int {
+	if n <= 3 {
+		return c08Perms[n]
+	}
+	var res [][]int
+	var rec func(cur []int, used []bool)
+	rec = func(cur []int, used []bool) {
+		if len(cur) == n {
+			res = append(res, append([]int{}, cur...))
+			return
+		}
+		for i := 0; i < n; i++ {
+			if !used[i] {
+				used[i] = true
+				rec(append(cur, i), used)
+				used[i] = false
+			}
+		}
+	}
+	rec(nil, make([]bool, n))
+	return res
+}
 
 // c08CheckSender: sender incarnation `snd` (live) must own every registry entry of its shard.
 func c08CheckSenderRegistered(e *rtEnv, snd *proxyStreamSender, label string) {
@@ -96,13 +122,26 @@ func verifHarness_C08_senders() {
 		// the previous incarnation's stream dies, the next one connects, and (optionally) a peer
 		// instance announces ownership of the same shard (=> watermark replay to it), in any
 		// order, with the scheduler free to interleave their register/unregister steps
-		nEv := 2
+		evs := []int{0, 1}
 		if announce > 0 {
-			nEv = 3
+			evs = append(evs, 2)
 		}
-		perm := c08Perms[nEv][verifChoose("order", len(c08Perms[nEv]))]
-		for _, ev := range perm {
-			switch ev {
+		if verifParam("deliver", 0) > 0 {
+			// a message routed to the shard while its sender incarnations change hands: it reaches a
+			// live incarnation or is reported undelivered, and never crashes the process
+			evs = append(evs, 3)
+		}
+		perms := c08AllPerms(len(evs))
+		perm := perms[verifChoose("order", len(perms))]
+		for _, pi := range perm {
+			switch evs[pi] {
+			case 3:
+				verifAction("deliver-message")
+				verifReach("message-routed-during-hand-over")
+				msg := &RoutedMessage{SourceShard: src.shard, Resp: &adminservice.StreamWorkflowReplicationMessagesResponse{
+					Attributes: &adminservice.StreamWorkflowReplicationMessagesResponse_Messages{
+						Messages: &replicationv1.WorkflowReplicationMessages{ExclusiveHighWatermark: 1}}}}
+				go e.sm.DeliverMessagesToShardOwner(shard, msg, channelNewShutdownOnce(), e.logger)
 			case 0:
 				verifAction("break-old")
 				close(streams[k-1].broken)
